@@ -74,6 +74,11 @@ func genGoodValue(t *rapid.T, typ string) interface{} {
 }
 
 func genBadValue(t *rapid.T, typ string) interface{} {
+	// composite where a scalar is expected: mergo skips such a value instead of
+	// failing (repaired defect 14: the source must then not be applied at all)
+	if rapid.IntRange(0, 2).Draw(t, "composite") == 0 {
+		return rapid.SampledFrom([]interface{}{map[string]interface{}{"a": float64(1)}, []interface{}{float64(1)}, map[string]interface{}{}}).Draw(t, "cbad")
+	}
 	switch typ {
 	case "int":
 		return rapid.SampledFrom([]interface{}{"abc", true, "12"}).Draw(t, "ibad")
